@@ -65,17 +65,21 @@ def execute(case):
     mine = []  # the children THIS case gave to the composite, in order
     events = []
     n = 0
+    # magnitudes: all supplies of a case are multiplied by a power of two (exact in binary
+    # floating point, so shares and means are bit-for-bit those of the unscaled case) - tiny
+    # and huge supplies are legal inputs
+    ks = case.get("supply_scale", 1)
     for op in case["ops"]:
         e = op["e"]
         if e == "Write":
             comp.demand = op["D"] if n % 2 == 0 else float(op["D"])
             events.append({"e": "Write", "D": op["D"], "cd": [scaled(c.demand, L) for c in mine], "nchildren": len(comp.children)})
         elif e == "Read":
-            events.append({"e": "Read", "demand": scaled(comp.demand, 1), "supply": scaled(comp.supply, 1), "u": scaled(comp.utilisation, 4 * L), "a": scaled(comp.allocation, 4 * L), "nchildren": len(comp.children)})
+            events.append({"e": "Read", "demand": scaled(comp.demand, 1), "supply": scaled(comp.supply / ks, 1), "u": scaled(comp.utilisation, 4 * L), "a": scaled(comp.allocation, 4 * L), "nchildren": len(comp.children)})
         elif e == "SetChild":
             c = mine[op["i"] - 1]
             if op["attr"] == "s":
-                c._supply = op["v"] if n % 3 else float(op["v"])
+                c._supply = (op["v"] if n % 3 else float(op["v"])) * ks
             elif op["attr"] == "u":
                 c._utilisation = op["v"] / 4
             else:
@@ -83,7 +87,7 @@ def execute(case):
             events.append(dict(op))
         elif e == "AddChild":
             c = op["c"]
-            pool = RecPool(supply=c["s"], demand=0, utilisation=c["u"] / 4, allocation=c["a"] / 4, name="c%d" % n)
+            pool = RecPool(supply=c["s"] * ks, demand=0, utilisation=c["u"] / 4, allocation=c["a"] / 4, name="c%d" % n)
             mine.append(pool)
             if n % 2:
                 comp.children.append(pool)
@@ -139,7 +143,7 @@ def random_case(rnd):
         elif k:
             ops.append({"e": "Remove", "i": rnd.randrange(1, k + 1)})
             k -= 1
-    return {"kind": kind, "ops": ops, "src": "random"}
+    return {"kind": kind, "ops": ops, "src": "random", "supply_scale": rnd.choice([1, 1, 2.0 ** -40, 2.0 ** 40, 2.0 ** -70])}
 
 
 def judge(ctx, cases, traces, verdicts):
@@ -177,7 +181,7 @@ def run(ctx):
         paths = rnd.sample(paths, budget)
     ctx.extra["behaviours_replayed"] = len(paths)
     ctx.extra["simulate_states"] = sres.generated
-    cases = [case_of_path(p) for p in paths]
+    cases = [dict(case_of_path(p), supply_scale=[1, 2.0 ** -40, 2.0 ** 40][k % 3]) for k, p in enumerate(paths)]
     for _ in range(8000 if thorough else 1500):
         cases.append(random_case(rnd))
     traces = [execute(c) for c in cases]
@@ -188,7 +192,7 @@ def run(ctx):
     ctx.extra["rule"] = "cases = behaviours generated by TLC -simulate from Composite.tla (depth 14) + random histories; distinct non-trivial = distinct (kind, write event with >= 2 children and the observed shares)"
     ctx.assumptions = [
         "children have independent attributes (a child whose supply tracks its demand instantly is not generated)",
-        "supply in whole units 0..4, utilisation/allocation in quarters 0..1.5, demands <= 100, <= 4 children; tiny/huge magnitudes are not explored (DESIGN 7.1)",
+        "supply in whole units 0..4, utilisation/allocation in quarters 0..1.5, demands <= 100, <= 4 children; magnitudes: supplies scaled by 2^-70, 2^-40, 1, 2^40 (exactly representable)",
         "observed floats must be within 1e-9 relative of the exact rational after scaling by lcm(1..16): 'up to floating-point rounding'",
     ]
 
